@@ -127,16 +127,12 @@ func runC07(t testing.TB, c C07Case) (key, what string, classes map[string]int) 
 	dir := workDir(t)
 	defer os.RemoveAll(dir)
 	cfg := Cfg{Listen: c.Listen}
-	tmplFile := ""
-	if len(c.Tmpl) > 0 {
-		tmplFile = filepath.Join(dir, "cb.tmpl")
-		cfg.Tmpl = tmplFile
-	}
+	tmplFile := filepath.Join(dir, "cb.tmpl")
 	s, err := Start(cfg)
 	if err != nil {
 		panic(err)
 	}
-	defer s.Stop()
+	defer func() { s.Stop() }()
 	pin, err := s.ServedPin()
 	if err != nil {
 		return "HARNESS", "cannot handshake: " + err.Error(), classes
@@ -240,7 +236,18 @@ func runC07(t testing.TB, c C07Case) (key, what string, classes map[string]int) 
 	if c.NIDs > 0 {
 		classes["id-freshness-scripts"] += c.NIDs
 	}
-	// template history
+	// template history, on a second server configured with a template file
+	if len(c.Tmpl) == 0 {
+		return "", "", classes
+	}
+	s.Stop()
+	cfg.Tmpl = tmplFile
+	if s, err = Start(cfg); err != nil {
+		panic(err)
+	}
+	if pin, err = s.ServedPin(); err != nil {
+		return "HARNESS", "cannot handshake: " + err.Error(), classes
+	}
 	state := "missing"
 	marker := 0
 	shape := 0
